@@ -130,3 +130,4 @@ def run(ctx, prog):
     ctx.doc(rule, "power-of-ten tables within the property's tolerance; IEEE constants")
     from rules import accum
     accum.run(ctx, prog)
+    accum.run_lockstep(ctx, prog)
